@@ -85,11 +85,15 @@ struct Elem {
     int coord = PLAIN;
     int tag = 0;       // 0: (0,0); 1: (32767,32767)
     int xf = 0;        // paths: index into xf_names, the transformation applied to the path object before it is saved
+    int jog = 0;       // simple flexpaths: 1/2 = 4-point spine with an axis-parallel jog along / across the direction of travel
+    int jogstep = 1;   // length of the jog relative to one grid step T: 0 the double just below T, 1 exactly T, 2 the double just above T
+    int srctol = 0;    // spine tolerance of the path as built: 0 = 1e-5, 1 = exactly T (the jog is then below / at / above the tolerance)
     int off = 0;       // simple paths: offset of the single element from the spine: 0 none, 1: +10.3, 2: -10.3, 3: +7.7, 4: -7.7 millis
 };
 struct LibSpec {
     int libcfg = 0;   // index into lib_units
     int namepar = 0;  // 0: odd-length library/cell/target names, 1: even-length
+    int readtol = 0;  // hint for round-trip checks: 0 = re-load with tolerance 1e-6, 1 = with read_gds' default (tolerance = precision/unit, one grid step)
     std::vector<Elem> elems;
 };
 
@@ -126,6 +130,10 @@ inline std::string describe(const Elem& e) {
     if (e.kind == LABEL || e.kind == REFERENCE) { f.push_back({"rotation", jstr(rot_names[e.rot])}); f.push_back({"magnification", jnum(mag_value(e))}); f.push_back({"x_reflection", jbool(e.refl)}); }
     if (e.kind == REFERENCE) f.push_back({"target", jstr(e.target ? "absent cell by name" : "cell of the library by pointer")});
     if (e.kind >= FLEX_SIMPLE && e.kind <= ROBUST_OUTLINE && e.xf) f.push_back({"transformed_by", jstr(xf_names[e.xf])});
+    if (e.kind == FLEX_SIMPLE && e.jog) {
+        f.push_back({"jog", jstr(std::string(e.jog == 1 ? "along" : "across") + " the direction of travel, length " + (e.jogstep == 0 ? "just below" : e.jogstep == 1 ? "exactly" : "just above") + " one grid step")});
+        f.push_back({"spine_tolerance", jstr(e.srctol ? "exactly one grid step" : "1e-5")});
+    }
     if ((e.kind == FLEX_SIMPLE || e.kind == ROBUST_SIMPLE) && e.off) f.push_back({"element_offset", jstr(e.off == 1 ? "+10.3 millis" : e.off == 2 ? "-10.3 millis" : e.off == 3 ? "+7.7 millis" : "-7.7 millis")});
     f.push_back({"coordinates", jstr(coord_names[e.coord])});
     if (e.kind != REFERENCE) f.push_back({"tag", jstr(e.tag ? "32767/32767" : "0/0")});
@@ -135,7 +143,7 @@ inline std::string describe(const LibSpec& s) {
     using namespace vf;
     std::vector<std::string> el;
     for (auto& e : s.elems) el.push_back(describe(e));
-    return jobj({{"unit", jnum(lib_units[s.libcfg][0])}, {"precision", jnum(lib_units[s.libcfg][1])}, {"names", jstr(s.namepar ? "even length" : "odd length")}, {"elements", jarr(el)}});
+    return jobj({{"unit", jnum(lib_units[s.libcfg][0])}, {"precision", jnum(lib_units[s.libcfg][1])}, {"names", jstr(s.namepar ? "even length" : "odd length")}, {"reload_tolerance", jstr(s.readtol ? "default (precision/unit)" : "1e-6")}, {"elements", jarr(el)}});
 }
 
 // ------------------------------------------------------------------ coordinates
@@ -303,6 +311,16 @@ inline Vec2 spine_point(const Frame& f, int n, int i) {
     const int(*sp)[2] = n == 2 ? spine2 : spine3;
     return f.pt(sp[i][0], sp[i][1]);
 }
+// one grid step in user units, as the literal a user would write (0.001, 0.0005) or the exact power of two
+inline double grid_step(const Frame& f) { return f.snom >= 1000 ? (f.snom == 2000 ? 0.0005 : 0.001) : 1.0 / f.snom; }
+// 4-point spine with an axis-parallel jog that starts at the origin, so that the difference of the two jog
+// vertices is bit-exactly the step (and step*step == tolerance*tolerance when the step is the tolerance)
+inline Vec2 jog_point(const Frame& f, const Elem& e, int i) {
+    const double T = grid_step(f), step = e.jogstep == 0 ? nextafter(T, 0.0) : e.jogstep == 1 ? T : nextafter(T, INFINITY);
+    if (e.jog == 1) { const Vec2 p[4] = {Vec2{-f.mm(30), 0}, Vec2{0, 0}, Vec2{step, 0}, Vec2{step, f.mm(40)}}; return p[i]; }
+    const Vec2 p[4] = {Vec2{-f.mm(30), 0}, Vec2{0, 0}, Vec2{0, step}, Vec2{f.mm(40), step}};
+    return p[i];
+}
 // ------------------------------------------------------------------ element builders
 template <class Path>
 inline void apply_xf(Path* p, int xf) {
@@ -345,11 +363,12 @@ inline void add_element(Cell* cell, Cell* kid, const Elem& e, const LibSpec& s) 
         case FLEX_SIMPLE:
         case FLEX_OUTLINE: {
             FlexPath* fp = (FlexPath*)allocate_clear(sizeof(FlexPath));
-            const double tol = 1e-5;
+            const double tol = e.jog && e.srctol ? grid_step(f) : 1e-5;
+            auto spt = [&](int i) { return e.jog ? jog_point(f, e, i) : spine_point(f, e.n, i); };
             if (e.kind == FLEX_SIMPLE) {
                 double w1 = f.coord == HALF ? f.len(2) : f.len(8), o1 = e.off ? (f.coord == HALF ? f.len(12) : e.off == 1 ? 0.0103 : e.off == 2 ? -0.0103 : e.off == 3 ? 0.0077 : -0.0077) : 0;  // 10.3 / 7.7 millis: derived centre-line coordinates stay away from half grid steps
                 Tag t1 = tag_of(e);
-                fp->init(spine_point(f, e.n, 0), 1, &w1, &o1, tol, &t1);
+                fp->init(spt(0), 1, &w1, &o1, tol, &t1);
                 fp->simple_path = true;
                 fp->scale_width = e.sw != 0;
                 fp->elements[0].end_type = e.end == 0 ? EndType::Flush : e.end == 1 ? EndType::HalfWidth : e.end == 2 ? EndType::Extended : EndType::Round;
@@ -362,7 +381,7 @@ inline void add_element(Cell* cell, Cell* kid, const Elem& e, const LibSpec& s) 
                 fp->simple_path = false;
                 fp->scale_width = true;
             }
-            for (int i = 1; i < e.n; i++) fp->segment(spine_point(f, e.n, i), NULL, NULL, false);
+            for (int i = 1; i < e.n; i++) fp->segment(spt(i), NULL, NULL, false);
             apply_xf(fp, e.xf);
             fp->repetition = rep;
             set_props(fp->properties, e.props);
@@ -491,6 +510,9 @@ inline const std::vector<Family>& families() {
         // simple paths with a non-zero element offset (both signs, two magnitudes) over spines with several
         // non-collinear interior joints (Manhattan 5 points, oblique 6 points): the centre line that is saved is the
         // spine displaced by the offset with mitre joints
+        // simple flexpaths with a one-grid-step jog against the path's own tolerance (as built) and against the
+        // tolerance read_gds gives re-loaded paths by default: vertices exactly the tolerance apart are kept
+        {"flexpath.simple.jog", FLEX_SIMPLE, {"libcfg10", "readtol", "srctol", "jog2", "jogstep"}, {10, 2, 2, 2, 3}},
         {"flexpath.simple.offset.joints", FLEX_SIMPLE, {"libcfg", "xf3", "end2", "n56", "off4"}, {4, 3, 2, 2, 4}},
         {"robustpath.simple.offset.joints", ROBUST_SIMPLE, {"libcfg", "xf3", "end2", "n56", "off4"}, {4, 3, 2, 2, 4}},
     };
@@ -558,6 +580,11 @@ inline LibSpec decode(const Family& fam, int64_t idx, bool heavy) {
         }
         else if (d == "xf") { e.xf = x + 1; e.sw = xf_scale_width[e.xf]; }
         else if (d == "off") e.off = x;
+        else if (d == "libcfg10") s.libcfg = x;
+        else if (d == "readtol") s.readtol = x;
+        else if (d == "srctol") e.srctol = x;
+        else if (d == "jog2") { e.jog = 1 + x; e.n = 4; }
+        else if (d == "jogstep") e.jogstep = x;
         else if (d == "off4") e.off = 1 + x;
         else if (d == "n56") e.n = 5 + x;
         else if (d == "xf3") { e.xf = x == 0 ? 0 : x == 1 ? 5 : 3; if (e.xf) e.sw = xf_scale_width[e.xf]; }  // as built, rotated by 0.6, mirrored
